@@ -231,12 +231,29 @@ def caltrack_state_of(m):
     }
 
 
+CALTRACK_PROFILES = {
+    # name: (baseline rows kept, reporting start) -- reporting data always carries metered usage
+    "caltrack": ("full year", "2023-01-15"),
+    # short / gapped baselines leave calendar months without rows: their uncertainty statistics are NaN
+    "caltrack-4weeks": ("4 weeks", "2023-05-20"),
+    "caltrack-11months": ("11 months", "2023-11-10"),
+    "caltrack-gap": ("month-long gap", "2023-04-15"),
+}
+
+
 def job_caltrack(job):
     from opendsm.eemeter.models.hourly_caltrack.wrapper import HourlyModel as CTModel
     rng = random.Random(job["seed"])
     tz = rng.choice(c01lib.ZONES)
+    kind, rstart = CALTRACK_PROFILES[job["profile"]]
     hf = fitlib.hourly_frame(rng, tz=tz, ndays=365)
-    rf = fitlib.hourly_frame(rng, tz=tz, start="2023-01-15", ndays=rng.choice([45, 75]))
+    if kind == "4 weeks":
+        hf = hf.iloc[24 * 150: 24 * 178]
+    elif kind == "11 months":
+        hf = hf.iloc[: 24 * 334]
+    elif kind == "month-long gap":
+        hf = hf[hf.index.month != 5]
+    rf = fitlib.hourly_frame(rng, tz=tz, start=rstart, ndays=rng.choice([45, 75]))
     with quiet():
         m = CTModel().fit(fitlib.caltrack_baseline(hf.copy()))
     state = caltrack_state_of(m)
@@ -247,7 +264,8 @@ def job_caltrack(job):
             ("no-observed", lambda: fitlib.caltrack_reporting(rf_noobs.copy()))]
     obs, js, m2, js2 = c01lib.roundtrip_obs(CTModel, m, sets, {}, snapshot=caltrack_state_of)
     state2 = obs.pop("_state2", None)
-    return {"state": state, "state2": state2, "js": js, "js2": js2, "obs": obs}
+    nan_months = [k[1] for k, v in state["unc"] if any(isinstance(x, float) and x != x for x in v.values())]
+    return {"state": state, "state2": state2, "js": js, "js2": js2, "obs": obs, "nan_months": nan_months}
 
 
 JOBS = {"daily": job_daily, "billing": job_billing, "hourly": job_hourly, "caltrack": job_caltrack}
